@@ -228,7 +228,7 @@ class ChannelItem(EFLRItem, DimensionedItem):
             # the long name is the default given at a previous write (the name the channel had then), not the user's
             self.long_name._value = None
 
-        if not self.long_name.value:
+        if self.long_name.value is None:
             logger.debug(f"Long name of channel '{self.name}' not specified; setting it to to the channel's name")
             self.long_name.value = self.name
             self._derived_from_data['long_name'] = self.long_name._assignments['value']
